@@ -317,7 +317,7 @@ func cases(run *vf.Run) ([]json.RawMessage, error) {
 				Expect: describe(root, r.log.Events[n-1]), Why: pick[n]}))
 		}
 	}
-	if run.Tier == "thorough" && os.Getenv("VERIF_C03_ONLY") == "" {
+	if only := os.Getenv("VERIF_C03_ONLY"); run.Tier == "thorough" && (only == "" || strings.Contains(","+only+",", ",S6,")) {
 		// S6: the real binary, 200 PRNG-chosen kill indices
 		seed := dataSeed(run.Seed, "S6")
 		m, err := s6CountRun(run, seed)
